@@ -449,6 +449,27 @@ def systematic(mon, rng, depth, shard, nshard):
             mon.digests.add(run.net.interleaving_id())
 
 
+def big_block_runs(mon, rng, n, quick):
+    """chains that contain a VALID block at (or up to 5 bytes below) the maximum block size: the largest message honest
+    nodes ever have to exchange"""
+    for _ in range(n):
+        world, tips = make_forest(rng, 2, [2, 1], tx_prob=0.2)
+        pid = tips[0]
+        parent = world.chain.blocks[pid]
+        size = ref.MAX_BLOCK_SIZE - rng.choice([0, 0, 1, 3, 5, 6, 40])
+        rb, real = world.sized_block(pid, parent.ts + 60, world.keys[0][1], size)
+        pid = world.accept(rb, real, validate=False)
+        parent = world.chain.blocks[pid]
+        rb, real = world.assemble(pid, [], parent.ts + 60, world.keys[1][1], route="ref")
+        tip = world.accept(rb, real, validate=False)
+        if tip is None or pid is None:
+            continue
+        for per_node in ([[tip], [tips[1]]], [[world.gid], [tip]]):
+            mon.c["runs_with_maximum_size_block"] = mon.c.get("runs_with_maximum_size_block", 0) + 1
+            one_run(mon, rng, world, per_node, {"kind": "max-size-block", "trunk": 2, "forks": [4, 1], "nodes": 2, "block_bytes": size},
+                    500, quick)
+
+
 def run_shard(spec):
     env.boot()
     mon = Monitor()
@@ -490,6 +511,8 @@ def run_shard(spec):
                     rng.shuffle(pn)
                     one_run(mon, rng, world, pn, desc, batch, quick)
             systematic(mon, rng, 4 if quick else 6, spec["shard"], NSHARD)
+            if spec["shard"] % 4 == 0:
+                big_block_runs(mon, rng, 1 if quick else 6, quick)
     res = {"evaluations": mon.c["runs"], "digests": sorted(mon.digests), "violations": mon.viol, "counters": mon.c,
            "samples": mon.samples}
     res["counters"]["rounds_histogram"] = {str(k): v for k, v in sorted(mon.rounds_hist.items())}
@@ -512,6 +535,7 @@ def finalize(m, tier):
                    ("reorganisations_by_sync", c.get("reorganisations_by_sync", 0), 50),
                    ("relay_calls_recorded", c.get("relay_calls_recorded", 0), 300),
                    ("runs_with_all_nodes_on_one_host", c.get("runs_with_all_nodes_on_one_host", 0), 60),
+                   ("runs_with_maximum_size_block", c.get("runs_with_maximum_size_block", 0), 4),
                    ("systematic_runs", c.get("systematic_runs", 0), 3 * 4 ** 4)],
         "extra": {"bounded_restatement_R_base": R_BASE},
     }
